@@ -288,6 +288,10 @@ fn relabel_effects(t: &Ast, style: &str, next: &mut usize, cond: bool) -> Ast {
             let name = match v.len() {
                 1 => "cf",
                 2 => "gf",
+                // three arguments: a function that exists nowhere, or (half of the styles) a
+                // name that is bound in the context, but to a plain value: the arguments are
+                // evaluated all the same before the call fails
+                _ if matches!(style, "bare" | "repeat" | "variables" | "mixed-false") => "sv",
                 _ => "nofn",
             };
             Ast::Func(name.into(), v.iter().map(|x| go(x, next, false)).collect())
